@@ -15,6 +15,8 @@
 //	(qkeys t ord n base stride seed) FindGE / FindLE / Get at every key of the key sequence of fill / mdel (n <= 2000)
 //	(hold t k r)                     register r = FindGE(k); Item() of every live register is recorded at checkpoints
 //	(erase t) (clone s d)            Erase / CloneDeep (only onto an empty tree)
+//	(forksw hib)                     fork: the allocator is Clone()-d, every tree CloneShallow()-ed, the case goes on
+//	                                 with the fork (hib != 0: after Hibernate + Boot of the new allocator)
 //	(chk)                            checkpoint: the change of the whole arena since the previous checkpoint, the
 //	                                 gaps and every tree header are recorded; the driver runs the oracles here
 //
@@ -37,7 +39,7 @@ import (
 	. "verifharness/lib"
 )
 
-var macroKinds = map[string]bool{"fill": true, "mdel": true, "sweep": true, "walk": true, "probe": true, "qkeys": true, "hold": true, "chk": true}
+var macroKinds = map[string]bool{"fill": true, "mdel": true, "sweep": true, "walk": true, "probe": true, "qkeys": true, "hold": true, "chk": true, "forksw": true}
 
 // the side file of the run; every case owns a contiguous region of it (offsets in the observations
 // are relative to the base of the case)
@@ -436,6 +438,27 @@ func (w *sworld) exec(o op) Sx {
 		return T("clone", I(start), I(n))
 	case "chk":
 		return w.checkpoint()
+	case "forksw":
+		// the fork idiom of leaves/burndown.go: Allocator.Clone() + CloneShallow() of every tree; the case
+		// goes on with the FORK (hib != 0: the fork is hibernated and booted first), the held iterators are
+		// re-bound to the same nodes of the forked trees.  The next checkpoint compares the fork's arena with
+		// what the original's was.
+		na := w.alloc.Clone()
+		for i, tr := range w.trees {
+			w.trees[i] = tr.CloneShallow(na)
+		}
+		if a(0) != 0 {
+			na.Hibernate()
+			na.Boot()
+		}
+		w.alloc = na
+		for r := range w.regs {
+			x := &w.regs[r]
+			if x.valid {
+				x.it = w.trees[x.t].VerifIterator(x.it.VerifNode())
+			}
+		}
+		return T("u")
 	}
 	panic("unknown scale op " + o.kind)
 }
@@ -481,7 +504,7 @@ func (j *scaleJob) limit() time.Duration {
 			n += o.a[2]
 		}
 	}
-	return 10*time.Second + time.Duration(3*n/100000)*time.Second
+	return 30*time.Second + time.Duration(3*n/100000)*time.Second
 }
 
 const scaleParallel = 6
@@ -729,6 +752,14 @@ func scaleCases(c *Config) {
 			run(fmt.Sprintf("%s-%d", ordNames[ord], n), tour(c, n, ord, (ord+i)%4, true))
 		}
 	}
+	// fork (Allocator.Clone + CloneShallow) of a big tree, a root-only tree and an empty tree with genuine gaps
+	if thorough {
+		run("fork-300000", forkScale(c, 300000, 0))
+		run("fork-65537", forkScale(c, 65537, 1))
+	}
+	run("fork-20000", forkScale(c, 20000, 2))
+	run("fork-2000", forkScale(c, 2000, 1))
+	run("fork-257", forkScale(c, 257, 0))
 	// several trees that exchange cells
 	run("shared-3x2000", sharedScale(c, 2000, 300, 6))
 	run("shared-3x257", sharedScale(c, 257, 33, 9))
